@@ -704,7 +704,7 @@ def run_real_scheduler(kind, inst, evs, t0):
         sch.schedule_absolute(at(t), feed(k, ev))
 
     def subscribe(s, st=None):
-        inst["op"](subjects).subscribe(lambda v: out.append((clock(), "N", v)),
+        inst["op"]([h.observable for h in subjects]).subscribe(lambda v: out.append((clock(), "N", v)),
                                        lambda e: out.append((clock(), "E", e)),
                                        lambda: out.append((clock(), "C", None)), scheduler=sch)
     sch.schedule_absolute(at(t0), subscribe)
